@@ -8,6 +8,7 @@ from .. import bits, fields, paths
 from ..core import FUNC, call_attr, calls_in, const, dotted, is_const, kwarg, norm, slice_parts, text, walk_local
 
 EXPLANATION = [
+    'C19.in-use-complement: LocalStreamEndPoint.in_use is the complement of State.IDLE (one equality test), not a range of states.',
     'C19.pump-cancellation: the task function of MediaPacketPump.start has a handler for CancelledError (or BaseException): stop() cancels and awaits that task.',
     'C19.state-after-success: no change_state() of avdtp.Stream sits in a finally or except block: the local state moves only after the peer accepted the procedure.',
     'C19.enum-field-defaults: every avdtp message field annotated with an enum type and given a default has an enum member as default (messages are formatted through `.name` before they are sent).',
@@ -814,7 +815,23 @@ def pump_cancellation(ctx):
     R.check(awaited and ok, rule, 'bumble.avdtp.MediaPacketPump.start | pump task', 'absorbs CancelledError', f'the pump task catches {sorted(names)} only: stop() cancels it and awaits it, so the CancelledError is raised into Stream.stop() / the Suspend handler - the Suspend is never sent (or never answered) and the two ends keep different states', p.loc(start))
 
 
+def in_use_complement(ctx):
+    """A local end point is in use in every state but IDLE (CLOSING and ABORTING included: the old stream still owns the
+    media channel): LocalStreamEndPoint.in_use tests `state != IDLE`, not a range of states."""
+    R, p = ctx.r, ctx.p
+    rule = 'C19.in-use-complement'
+    ci = p.cls('bumble.avdtp.LocalStreamEndPoint')
+    fn = ci.methods.get('in_use') if ci is not None else None
+    if fn is None:
+        R.bad(rule, 'bumble.avdtp.LocalStreamEndPoint.in_use', 'anchor missing')
+        return
+    cmps = [c for c in ast.walk(fn) if isinstance(c, ast.Compare) and 'state' in norm(c)]
+    ok = len(cmps) == 1 and len(cmps[0].ops) == 1 and isinstance(cmps[0].ops[0], (ast.NotEq, ast.Eq, ast.IsNot, ast.Is)) and norm(cmps[0].comparators[0]).endswith('State.IDLE')
+    R.check(ok, rule, 'bumble.avdtp.LocalStreamEndPoint.in_use', 'in use unless IDLE', f'in_use is decided by `{norm(cmps[0])[:70] if cmps else "?"}`: the transitional states (CLOSING, ABORTING) count as free, so a Set Configuration arriving before the old stream has released its channel is accepted - a second stream is bound to the end point while the peer still streams on the first', p.loc(fn))
+
+
 RULES = [
+    ('C19.in-use-complement', in_use_complement),
     ('C19.pump-cancellation', pump_cancellation),
     ('C19.state-after-success', state_after_success),
     ('C19.enum-field-defaults', enum_field_defaults),
